@@ -551,7 +551,7 @@ impl<'a> Exec<'a> {
             Op::RCreate { .. } | Op::RDestroy { .. } | Op::RAdd { .. } | Op::RLimit { .. } | Op::RMarkers { .. } | Op::RSearch { .. } | Op::RRead { .. } => {
                 self.do_registry(ix, op);
             }
-            Op::Dist { .. } | Op::Jacc { .. } | Op::WMatch { .. } | Op::Burst { .. } | Op::JCheck { .. } => {
+            Op::Dist { .. } | Op::Jacc { .. } | Op::WMatch { .. } | Op::Burst { .. } | Op::JCheck { .. } | Op::JBurst { .. } => {
                 #[cfg(feature = "hooks")]
                 crate::scratch::step(self, ix, op);
             }
@@ -1240,6 +1240,17 @@ impl<'a> Exec<'a> {
                                 }
                                 Some(Err(p)) => {
                                     self.violate("C20", "C20.search", ix, "", fmt_hits(&h), format!("stand-alone store with the same history: {}", p.render()), String::new());
+                                }
+                                _ => {}
+                            }
+                            // ... and exactly what a NEWLY BUILT stand-alone store with the same language,
+                            // records, limit and markers returns (the statement does not say "same history")
+                            let m = self.registry[&(t, id)].model.clone();
+                            let qq = q.clone();
+                            self.out.evals += 1;
+                            match self.pristine(move || sut::search(&m.build(), &qq)) {
+                                Ok(e) if e != h => {
+                                    self.violate("C20", "C20.fresh", ix, "", fmt_hits(&h), format!("a newly built stand-alone store with the same records, limit and markers: {}", fmt_hits(&e)), String::new());
                                 }
                                 _ => {}
                             }
